@@ -582,6 +582,15 @@ func (p *parser) parseDecl(cs *ContractSet) error {
 				return err
 			}
 			fc.Key = k
+			// `func F alt <name>`: an additional contract of the same body (own unit F#<name>, never used at call sites)
+			if tk := p.peek(); tk.kind == "id" && tk.text == "alt" {
+				p.next()
+				n, err := p.ident()
+				if err != nil {
+					return err
+				}
+				fc.Key = k + "#" + n
+			}
 		case "iface", "field":
 			// [pkg.]Type.Member
 			a, err := p.ident()
